@@ -37,10 +37,10 @@ def sizes(tier):
 def known_entries(prop="C04"):
     out = [k for k in vflib.load_known() if k.get("property") == prop]
     if os.path.exists(PROPOSED):
-        ids = {k["id"] for k in out}
+        # a proposed entry with the id of a recorded one is the proposed revision of it (e.g. a wider "explains" list)
         for k in json.load(open(PROPOSED)):
-            if k.get("property") == prop and k["id"] not in ids:
-                out.append(k)
+            if k.get("property") == prop:
+                out = [x for x in out if x["id"] != k["id"]] + [k]
     return out
 
 
@@ -192,6 +192,7 @@ def build_all():
     return None, binp
 
 
+@vflib.serialized("run_mysql")
 def run_mysql(tier, seed):
     """returns dict(rows, mismatches {idx: [subchecks]}, verdicts {idx: {...}}, errors, parse_errors, meta, dir)"""
     sz = sizes(tier)
